@@ -6,7 +6,7 @@ export GOFLAGS=-mod=mod GOPROXY=off GOSUMDB=off GOTOOLCHAIN=local
 V=/verif
 mkdir -p $V/bin $V/evidence
 (cd $V/engine/vinstr && go build -o $V/bin/vinstr .)
-(cd $V/engine/conform && go build -tags verif -o $V/bin/conform . && GOMAXPROCS=1 $V/bin/conform -out $V/bin/conform.json)
+(cd $V/engine/conform && go build -tags verif -o $V/bin/conform . && GOMAXPROCS=1 $V/bin/conform -out $V/bin/conform.json && VS_PURE_BUF=1 GOMAXPROCS=1 $V/bin/conform -out $V/bin/conform-pure.json)
 # shim + rewriter vs the real Go runtime on ordinary Go programs (every native outcome must have been explored)
 $V/gocorpus.sh 20
 S=/dev/shm/verif-setup-$$
